@@ -45,6 +45,13 @@ def materialise(spec):
         ws.append(simgen.gen_watcher(rnd, 'b', np_choices=(1, 2)))
     for w in ws:
         w['singleton'] = False
+        if rnd.random() < .3:
+            # hooks around the stop sequence that refuse or fail: none of them may keep a worker alive or listed
+            # (before_stop / before_reap / after_* results are documented as ignored, a vetoed stop signal is
+            # followed by SIGKILL, which no hook can veto)
+            w['hooks'] = {hn: [rnd.choice(['false', 'raise', 'true', 'false@1', 'raise@2']), rnd.random() < .3]
+                          for hn in rnd.sample(['before_stop', 'after_stop', 'before_signal', 'after_signal',
+                                                'before_reap', 'after_reap'], rnd.randint(1, 3))}
     names = [w['name'] for w in ws]
     h = {'kill_latency': rnd.choice([0.0, 0.0005, 0.002]), 'watchers': ws,
          'steps': simgen.gen_steps(rnd, names, PREFIX, 0, 3),
